@@ -7,6 +7,15 @@ HERE = os.path.dirname(os.path.dirname(os.path.abspath(__file__)))
 
 # id -> (technique, level text, level note, DESIGN section)
 CHECKS = {
+    "C13": ("Hypothesis-generated axes/data + complete enumeration of lengths, against the defining Fourier sum "
+            "(dense matrix product) and the identity round trip",
+            "Every length 2..257, both domains and both axis types are enumerated with fixed data, and starts, steps "
+            "and complex data are generated; the returned transform is compared point by point with the defining "
+            "sum on the returned axis, FT followed by inverse FT with the original values and axis, and the axis "
+            "round trip element-wise (tolerance 1e-10*N relative).",
+            "Inverse-first round trips and round trips of upper-half frequency-domain functions are not claimed "
+            "(not stated by the property / not injective). Lengths > 257 are not explored.",
+            "DESIGN.md section 3 C13"),
     "C20": ("exhaustive enumeration of (size,start,length,rank) + Hypothesis-generated ranges/APIs against the "
             "definition of an exact balanced partition; simulated ranks",
             "Every (process count, start, length, rank) on a finite grid is enumerated completely and larger "
